@@ -161,12 +161,25 @@ def run(rep):
     for q, r in zip(reqs, impl.run(reqs)):
         twins(rep, "_merge_entries", q, r)
     reqs = []
-    for _ in range(120 if not thorough else 2500):
+    fixed = [b"", b"\n", b"\r", b"a\rb\rc\r", b"a\r\nb", b"x" * 63 + b"\n", b"x" * 64, b"x" * 64 + b"\n", b"x" * 65, b"x" * 128, b"\n" * 70,
+             b"a\x0bb\x0cc\x1cd\x1de\x1ef\x85g", bytes(range(256)), b"one\rtwo\rthree\r"]
+    for data in fixed:
+        reqs.append({"fn": "count_blocks", "data": hx(data), "chunks": None})
+    for _ in range(150 if not thorough else 3000):
         n = rng.choice([0, 1, 5, 63, 64, 65, 200, 1000])
-        data = bytes(rng.choice(b"ab\n\n x") for _ in range(n))
+        alpha = rng.choice([b"ab\n\n x", b"ab\r\n\r x", bytes(range(256)), b"\n\r\x0b\x0c\x1c\x85ab"])
+        data = bytes(rng.choice(alpha) for _ in range(n))
         reqs.append({"fn": "count_blocks", "data": hx(data), "chunks": rng.choice([None, 1, 7, 64])})
-    for q, r in zip(reqs, impl.run(reqs)):
+    cres = impl.run(reqs)
+    mblocks = model.run(["blocks " + q["data"] for q in reqs])
+    eres = impl.run([{"fn": "blocks_expected", "blocks": m} for m in mblocks])
+    for q, r, m, e in zip(reqs, cres, mblocks, eres):
         twins(rep, "_count_blocks", q, r)
+        if isinstance(r, dict) and "py" in r and isinstance(e, dict) and "v" in e:
+            for who in ("py", "rs"):
+                if r[who] not in ("absent",) and r[who] != e["v"]:
+                    rep.disagree("_count_blocks (%s) vs RustTwins.count_blocks" % who, {"data": q["data"][:400], "chunks": q["chunks"]},
+                                 e["v"][:200], str(r[who])[:200])
     reqs = [{"fn": "is_tree", "mode": m} for m in (None, "None", "4000", "81a4", "a000", "e000", "0", "c000", "4001", "14000", "ffffffff")]
     for q, r in zip(reqs, impl.run(reqs)):
         twins(rep, "_is_tree", q, r)
